@@ -135,6 +135,14 @@ def build_program(case):
         u, t = rng.choice(cands)
         name = "cl_%s" % nodes[t]["name"]
         prog["aliases"].append({"name": name, "mod": nodes[u]["mod"], "target": t, "clone": True})
+        if case["idx"] % 2 == 0 and nodes[u]["mod"] == nodes[t]["mod"] and any(
+                nodes[j]["kind"] == "plain" and nodes[j]["mod"] == nodes[t]["mod"] for j in progs.callees(prog, t, include_hidden=False)):
+            # ... the clone is made right below the definition of its function, above a plain helper that function uses (the
+            # clone keeps the version the function had at that line - by construction, so the helper stays below it in every
+            # definition order tried; import, hash seed and query order still vary)
+            prog["aliases"][-1]["early"] = True
+            prog["early_clone"] = True
+            out["obs"]["programs_with_a_modifier_clone_made_above_a_helper"] += 1
         if not any(c["t"] == t and c["form"] == "bare" for c in nodes[u]["calls"]):
             nodes[u]["calls"].append({"t": t, "form": "bare"})
         nodes[u]["calls"].append({"t": t, "form": "alias", "alias": name})
@@ -227,7 +235,9 @@ def run_case(case):
         srcs = []
         for o in range(case["orders"]):
             order = list(range(len(prog["nodes"])))
-            if o == 1:
+            if prog.get("early_clone") and o >= 2:
+                pass
+            elif o == 1:
                 # memento functions first, helpers afterwards: every helper is still undefined when its users register
                 order.sort(key=lambda i: (prog["nodes"][i]["kind"] != "memento", -i))
             elif o == 2:
